@@ -170,47 +170,50 @@ class SelectH(_B):
         cfg = pnd.ge_polyhedron_config(M, default_prio_vector=symnd.nd([-1] * k),
                                        variables=[repo.puan.variable(0, (1, 1))] + cols, index=[repo.puan.variable("r")])
         rec = {}
-        objrows = [[SInt(z3.Int(f"o{i}{j}")) for j in range(k)] for i in range(2)]
+        objrows = [[SInt(z3.Int(f"o{i}{j}")) for j in range(k)] for i in range(3)]
 
         def vfp(prios):
             rec["prios"] = list(prios)
             return symnd.nd(objrows)
         cfg._vectors_from_prios = vfp
         sol = [SInt(z3.Int(f"s{j}")) for j in range(k)]
+        sol2 = [SInt(z3.Int(f"t{j}")) for j in range(k)]
 
         def solver(p, objs):
             if case["boom"]:
                 raise RuntimeError("solver down")
             rec["poly"] = p
             rec["objs"] = [o.tolist() if hasattr(o, "tolist") else list(o) for o in objs]
-            return [(symnd.nd(sol), SInt(z3.Int("ov")), 5), (None, 0, 4)]
-        return {"cfg": cfg, "cols": cols, "rec": rec, "solver": solver, "sol": sol, "objrows": objrows,
-                "p1": {"x0": 1}, "p2": {}, "InfeasibleError": pnd.InfeasibleError}
+            # one answer per request: a solution, no solution, another solution
+            return [(symnd.nd(sol), SInt(z3.Int("ov")), 5), (None, 0, 4), (symnd.nd(sol2), SInt(z3.Int("ov2")), 5)]
+        return {"cfg": cfg, "cols": cols, "rec": rec, "solver": solver, "sol": sol, "sol2": sol2, "objrows": objrows,
+                "p1": {"x0": 1}, "p2": {}, "p3": {"x0": -1}, "InfeasibleError": pnd.InfeasibleError}
 
     expected_raises = (Exception,)
 
     def run(self, c, st):
         self.begin_call(c)
-        return list(st["cfg"].select(st["p1"], st["p2"], solver=st["solver"]))
+        return list(st["cfg"].select(st["p1"], st["p2"], st["p3"], solver=st["solver"]))
 
     def ensures(self, c, st, res):
         case, rec, cols, sol = c.state_case, st["rec"], st["cols"], st["sol"]
         if case["boom"]:
             return [("select/exception", False)]          # must have raised
         out = [("select/poly", rec.get("poly") is st["cfg"]),
-               ("select/prios", rec.get("prios") == [st["p1"], st["p2"]])]
+               ("select/prios", rec.get("prios") == [st["p1"], st["p2"], st["p3"]])]
         objs = rec.get("objs", [])
-        ok = len(objs) == 2 and all(len(o) == len(cols) for o in objs)
+        ok = len(objs) == 3 and all(len(o) == len(cols) for o in objs)
         out.append(("select/objective.shape", ok))
         if ok:
-            out.append(("select/objective", band(*[objs[i][j] == st["objrows"][i][j] for i in range(2) for j in range(len(cols))])))
-        out.append(("select/result.count", len(res) == 2))
-        if len(res) == 2:
-            d0 = res[0][0]
-            out.append(("select/result.keys", sorted(d0.keys()) == sorted(cc.id for cc in cols)))
-            for j, col in enumerate(cols):
-                if col.id in d0:
-                    out.append((f"select/result.value[{j}]", d0[col.id] == sol[j]))
+            out.append(("select/objective", band(*[objs[i][j] == st["objrows"][i][j] for i in range(3) for j in range(len(cols))])))
+        out.append(("select/result.count", len(res) == 3))
+        if len(res) == 3:
+            for which, vals in ((0, sol), (2, st["sol2"])):
+                d0 = res[which][0]
+                out.append((f"select/result.keys[{which}]", sorted(d0.keys()) == sorted(cc.id for cc in cols)))
+                for j, col in enumerate(cols):
+                    if col.id in d0:
+                        out.append((f"select/result.value[{which},{j}]", d0[col.id] == vals[j]))
             out.append(("select/result.none", res[1][0] == {}))
         return out
 
@@ -218,6 +221,50 @@ class SelectH(_B):
         if c.state_case["boom"]:
             return [("select/exception", isinstance(exc, st["InfeasibleError"]))]
         return [("no-raise[%s]" % type(exc).__name__, False)]
+
+
+def _select_concretise(self, case, k, model, c, st):
+    from .common import _mv
+    g = lambda v: _mv(model, v.t) if hasattr(v, "t") else int(v)
+    return {"k": case["k"], "boom": case["boom"], "sol": [g(v) for v in st["sol"]], "sol2": [g(v) for v in st["sol2"]]}
+
+
+def _select_replay(self, w):
+    """the real select() with a solver that answers (solution, None, solution) to three requests"""
+    import numpy as np
+    import puan
+    import puan.ndarray as pnd
+    k = w["k"]
+    cols = [puan.variable(f"x{j}") for j in range(k)]
+    cfg = pnd.ge_polyhedron_config([[0] + [1] * k], default_prio_vector=np.array([-1] * k),
+                                   variables=[puan.variable(0, (1, 1))] + cols, index=[puan.variable("r")])
+
+    def solver(p, objs):
+        if w["boom"]:
+            raise RuntimeError("solver down")
+        return [(np.array(w["sol"]), 0, 5), (None, 0, 4), (np.array(w["sol2"]), 0, 5)]
+    violated = []
+    try:
+        res = list(cfg.select({"x0": 1}, {}, {"x0": -1}, solver=solver))
+    except Exception as e:
+        return {"violated": [] if w["boom"] and isinstance(e, pnd.InfeasibleError) else ["select/exception"], "detail": {"raised": repr(e)}}
+    if len(res) != 3:
+        violated.append("select/result.count")
+    else:
+        for which, vals in ((0, w["sol"]), (2, w["sol2"])):
+            d0 = res[which][0]
+            if sorted(d0.keys()) != sorted(cc.id for cc in cols):
+                violated.append(f"select/result.keys[{which}]")
+            for j, col in enumerate(cols):
+                if col.id in d0 and int(d0[col.id]) != vals[j]:
+                    violated.append(f"select/result.value[{which},{j}]")
+        if res[1][0] != {}:
+            violated.append("select/result.none")
+    return {"violated": violated, "detail": {"answers": [str(r_[0]) for r_ in res]}}
+
+
+SelectH.concretise = _select_concretise
+SelectH.replay = _select_replay
 
 
 class StingySelectH(_B):
